@@ -244,8 +244,13 @@ func runCLI(c Case) (result, error) {
 		}
 	}()
 	for i, f := range c.Files {
-		// names a shell would mangle, passed without a shell: they are just names
-		p := filepath.Join(dir, fmt.Sprintf("p%d$HOME ${x} %%s.json", i))
+		// names a shell would mangle, passed without a shell: they are just names; every
+		// file has the same base name, in a directory of its own (the path is the file's identity)
+		sub := filepath.Join(dir, fmt.Sprintf("d%d", i))
+		if err := os.Mkdir(sub, 0o755); err != nil {
+			return result{}, err
+		}
+		p := filepath.Join(sub, "p,$HOME ${x} %s.json")
 		switch f.Kind {
 		case "unreadable":
 			p = "/proc/self/mem"
